@@ -49,7 +49,7 @@ def fkey(fn, suffix=""):
 
 
 def calls_of(fn):
-    return [n for n in fn.nodes() if is_call(n)]
+    return [n for n in dfl.own_nodes(fn) if is_call(n)]
 
 
 # =====================================================================================================
@@ -450,7 +450,7 @@ def check_requests(ck, facts):
                 e = c["a"][0]
                 if e.get("k") == "Member" and e.get("field"):
                     flag, how = e["n"], "asserts"
-        for n in walk(d.body):
+        for n in dfl.own_walk(d.body):
             if n.get("k") == "If":
                 cnd = n["c"]
                 if cnd.get("k") == "Un" and cnd.get("op") == "!" and cnd["e"].get("k") == "Member" and any(is_call(x) and callee_name(x) == "wait" for x in walk(n["then"])):
@@ -486,7 +486,7 @@ def check_requests(ck, facts):
                 if src:
                     taken[ini.get("member")] = src[0]["n"]
             src_set = {}
-            for n in walk(f.body):
+            for n in dfl.own_walk(f.body):
                 if n.get("k") in ("Assign", "OpCall") and n.get("op") == "=":
                     lhs = n.get("lhs") if n.get("k") == "Assign" else n["a"][0]
                     rhs = n.get("rhs") if n.get("k") == "Assign" else n["a"][1]
@@ -525,12 +525,12 @@ def check_requests(ck, facts):
             for ini in (f.d.get("inits") or []):
                 if any(x.get("k") == "Member" and x.get("n") == ini.get("member") and x.get("b") is not None and x["b"].get("k") != "This" for x in walk(ini.get("init"))):
                     moved.add(ini.get("member"))
-            for n in walk(f.body):
+            for n in dfl.own_walk(f.body):
                 if n.get("k") in ("Assign", "OpCall") and n.get("op") == "=":
                     lhs = n.get("lhs") if n.get("k") == "Assign" else n["a"][0]
                     if lhs.get("k") == "Member" and (lhs.get("b") is None or lhs["b"].get("k") == "This"):
                         moved.add(lhs["n"])
-            waits_first = any(is_call(x) and callee_name(x) in ("wait", "wait_all") for x in walk(f.body))
+            waits_first = any(is_call(x) and callee_name(x) in ("wait", "wait_all") for x in dfl.own_walk(f.body))
             hs = {}
             for bname, h in inline_bufs:
                 hname = h.steps[1][1] if h is not None and len(h.steps) > 1 else None
@@ -599,18 +599,18 @@ def check_coherence(ck, facts):
         rs = Resolver(fn)
         par = dfl.parents(fn)
         cfg = fn.cfg
-        loops = [n for n in fn.nodes() if n.get("k") in ("For", "While", "Do", "ForRange")]
+        loops = [n for n in dfl.own_nodes(fn) if n.get("k") in ("For", "While", "Do", "ForRange")]
         ordinal = {}
         has_gather = any(c.get("k") == "MCall" and callee_name(c) == "gather" for c in calls_of(fn))
         # flags that hold the result of wait_any:  bool f = H.wait_any(idx); ... f = H.wait_any(idx);
         flag_calls = {}
-        for n in fn.nodes():
+        for n in dfl.own_nodes(fn):
             if n.get("k") == "Var" and (n.get("init") or {}).get("k") == "MCall" and callee_name(n["init"]) == "wait_any":
                 flag_calls.setdefault(n["d"], []).append(n["init"])
             elif n.get("k") == "Assign" and n.get("op") == "=" and n["lhs"].get("k") == "Ref" and n["rhs"].get("k") == "MCall" and callee_name(n["rhs"]) == "wait_any":
                 flag_calls.setdefault(n["lhs"]["d"], []).append(n["rhs"])
         scopes = [(L, [x for x in walk(L.get("body"))]) for L in loops]
-        outside = [x for x in fn.nodes() if not dfl.enclosing_loops(fn, par, x) and x.get("k") not in ("For", "While", "Do", "ForRange")]
+        outside = [x for x in dfl.own_nodes(fn) if not dfl.enclosing_loops(fn, par, x) and x.get("k") not in ("For", "While", "Do", "ForRange")]
         scopes.append((None, outside))
         for L, nodes in scopes:
             posts = [c for c in nodes if is_call(c) and POST_RE.match(strip_targs(c.get("callee", "")))]
@@ -944,15 +944,27 @@ def check_kernels(ck, facts):
         cs = [c for c in calls_of(fn) if strip_targs(c.get("callee", "")).startswith("FEAT::LAFEM::Arch::Mirror::")]
         ok = bool(cs)
         detail = []
+        rsd = Resolver(fn)
+        unk_d = []
         for c in cs:
             if not re.match(r"FEAT::LAFEM::Arch::Mirror::%s_(generic|cuda|mkl)$" % m.group(1), strip_targs(c.get("callee", ""))):
                 ok = False
                 detail.append("forwards to %s" % c.get("callee"))
-            args = c.get("a", [])
-            if len(args) != len(fn.params) or any(not (a.get("k") == "Ref" and a.get("d") == p["d"]) for a, p in zip(args, fn.params)) \
-                    or (c.get("pn") or []) != [p["n"] for p in fn.params]:
-                ok = False
-                detail.append("argument order of %s differs from the own parameter list" % render(c)[:80])
+            # every kernel parameter receives the dispatcher parameter of the same name (named temporaries / casts looked through)
+            for j, (a, pn_, pt_) in enumerate(dfl.call_args_with_params(c, fn)):
+                v = strip_casts(rsd, a)
+                if v is not None and v.get("k") == "Ref" and v.get("dk") == "param":
+                    # same position, or (declaration order changed consistently) the kernel parameter of the same name
+                    if not ((j < len(fn.params) and v.get("d") == fn.params[j]["d"]) or v.get("n") == pn_):
+                        ok = False
+                        detail.append("kernel parameter '%s' of %s receives the dispatcher parameter '%s'" % (pn_, callee_name(c), v.get("n")))
+                else:
+                    unk_d.append("argument %s for kernel parameter '%s' not understood" % (render(a)[:40], pn_))
+            if len(c.get("a", [])) != len(fn.params):
+                unk_d.append("%s does not receive all %d dispatcher parameters" % (callee_name(c), len(fn.params)))
+        if unk_d and ok:
+            ck.incomplete("E1.mirror-dispatch", "Arch::Mirror::%s: %s" % (m.group(1), "; ".join(unk_d)[:300]))
+            continue
         agg.setdefault(m.group(1), []).append((ok, "; ".join(detail), fn))
     for name, res in sorted(agg.items()):
         bad = [r_ for r_ in res if not r_[0]]
@@ -1047,7 +1059,7 @@ def check_kernels(ck, facts):
 def dfl_hash(fn):
     import hashlib
     h = hashlib.sha1()
-    for n in fn.nodes():
+    for n in dfl.own_nodes(fn):
         h.update(("%s|%s|%s|%s;" % (n.get("k"), strip_targs(n.get("callee", "") or ""), n.get("n", ""), n.get("op", ""))).encode())
     return h.hexdigest()
 
@@ -1085,6 +1097,14 @@ def enclosing_conds(par, n):
     return out
 
 
+def field_of(rs, n):
+    """name of the member of *this an expression denotes (through reference aliases), else None"""
+    if n is None:
+        return None
+    st = rs.path(n).steps
+    return st[1][1] if len(st) == 2 and st[0] == ("this",) and st[1][0] == "field" else None
+
+
 def this_field(n):
     if n is not None and n.get("k") == "Member" and n.get("field") and (n.get("b") is None or n["b"].get("k") == "This"):
         return n["n"]
@@ -1112,7 +1132,11 @@ def check_global_matrix(ck, facts):
         want = "apply_transposed" if "transposed" in fn.name else "apply"
         is_async = fn.name.endswith("_async")
         pr, px = fn.params[0], fn.params[1]
-        locs = [c for c in calls_of(fn) if c.get("k") == "MCall" and this_field(c.get("obj")) is not None and callee_name(c).startswith("apply")]
+
+        def is_par(n_, d_, rs=rs):
+            """n_ denotes the parameter with decl d_ itself (through reference aliases / the bound parameters of inlined helpers)"""
+            return n_ is not None and rs.path(n_).steps == (("param", d_),)
+        locs = [c for c in calls_of(fn) if c.get("k") == "MCall" and field_of(rs, c.get("obj")) is not None and callee_name(c).startswith("apply")]
         problems = []
         unknown = []
         if len(locs) != 1:
@@ -1133,13 +1157,13 @@ def check_global_matrix(ck, facts):
             if len(fn.params) == 4:
                 py, pa = fn.params[2], fn.params[3]
                 slot("y", pr["d"], "%s.local() (the type-0 copy of %s)" % (pr["n"], py["n"]))
-                al = a.get("alpha")
+                al = rs.value(a.get("alpha")) if a.get("alpha") is not None else None
                 if not (al is not None and al.get("k") == "Ref" and al.get("d") == pa["d"]):
-                    problems.append("slot alpha <- %s" % render(al))
+                    (problems if al is not None and al.get("k") in ("Ref", "Int", "Float") else unknown).append("slot alpha <- %s" % render(al))
                 # r.copy(y); r.from_1_to_0() dominate the local product, exactly once each
-                cps = [m for m in calls_of(fn) if m.get("k") == "MCall" and callee_name(m) == "copy" and (m.get("obj") or {}).get("d") == pr["d"]
-                       and m.get("a") and m["a"][0].get("k") == "Ref" and m["a"][0].get("d") == py["d"]]
-                f10 = [m for m in calls_of(fn) if m.get("k") == "MCall" and callee_name(m) == "from_1_to_0" and (m.get("obj") or {}).get("d") == pr["d"]]
+                cps = [m for m in calls_of(fn) if m.get("k") == "MCall" and callee_name(m) == "copy" and is_par(m.get("obj"), pr["d"])
+                       and m.get("a") and is_par(m["a"][0], py["d"])]
+                f10 = [m for m in calls_of(fn) if m.get("k") == "MCall" and callee_name(m) == "from_1_to_0" and is_par(m.get("obj"), pr["d"])]
                 before = [u for u in dfl.unmodelled_mutable_uses(fn, rs, dfl.Path((("param", pr["d"]),)), modelled=("copy", "from_1_to_0", "local", "sync_0", "sync_0_async"))
                           if u is not c and not fn.cfg.stmt_dominates(c["i"], u["i"])]
                 if len(f10) > 1 or len(cps) > 1:
@@ -1158,13 +1182,13 @@ def check_global_matrix(ck, facts):
                     else:
                         unknown.append("copy(y) is conditional (control flow not modelled)")
             else:
-                extra = [m for m in calls_of(fn) if m.get("k") == "MCall" and callee_name(m) in ("from_1_to_0", "sync_1") and (m.get("obj") or {}).get("d") == pr["d"]]
+                extra = [m for m in calls_of(fn) if m.get("k") == "MCall" and callee_name(m) in ("from_1_to_0", "sync_1") and is_par(m.get("obj"), pr["d"])]
                 if extra:
                     problems.append("2-operand product must not rescale the result (%s)" % render(extra[0]))
             syncname = "sync_0_async" if is_async else "sync_0"
 
             def is_sync(m, syncname=syncname):
-                return m.get("k") == "MCall" and callee_name(m) == syncname and (m.get("obj") or {}).get("k") == "Ref" and m["obj"].get("d") == pr["d"]
+                return m.get("k") == "MCall" and callee_name(m) == syncname and is_par(m.get("obj"), pr["d"])
             if not dfl.after_on_all_paths(fn, c, is_sync):
                 other = dfl.unmodelled_mutable_uses(fn, rs, dfl.Path((("param", pr["d"]),)), after=c, modelled=("local", "copy", "from_1_to_0"))
                 if other:
@@ -1172,10 +1196,17 @@ def check_global_matrix(ck, facts):
                 else:
                     problems.append("the type-0 result of the local product is not synchronised by %s.%s() on every path afterwards" % (pr["n"], syncname))
             if is_async:
-                rets = [n for n in walk(fn.body) if n.get("k") == "Return"]
+                rets = [n for n in dfl.own_walk(fn.body) if n.get("k") == "Return"]
+                assigned_ = dfl.assigned_decls(fn)
                 for r_ in rets:
-                    if not any(is_sync(m) for m in walk(r_.get("e"))):
-                        problems.append("a return does not hand out the ticket of %s.sync_0_async()" % pr["n"])
+                    nodes_ = list(walk(r_.get("e")))
+                    for x_ in list(nodes_):
+                        # a named ticket: T t = r.sync_0_async(); ...; return t;
+                        if x_.get("k") == "Ref" and x_.get("dk") == "local" and x_["d"] not in assigned_ and rs.var(x_["d"]) is not None and not rs.var(x_["d"]).get("ref"):
+                            nodes_ += list(walk(rs.var(x_["d"]).get("init")))
+                    if not any(is_sync(m) for m in nodes_):
+                        opaque_ = [x_ for x_ in nodes_ if is_call(x_) and x_.get("callee") not in dfl.MOVE_FNS and x_.get("k") not in ("Construct", "TempObj")]
+                        (unknown if opaque_ else problems).append("a return does not hand out the ticket of %s.sync_0_async()" % pr["n"])
         if unknown and not problems:
             ck.incomplete("E7.matrix-apply-sync", "%s: %s" % (key, "; ".join(unknown)[:300]))
             continue
@@ -1216,12 +1247,13 @@ def check_gate(ck, facts, partial=False):
                     mirrors_f = this_field(c["obj"])
         freqs_f = None
         for g_ in fns.get("get_freqs", []):
-            rets_ = [n for n in walk(g_.body) if n.get("k") == "Return" and n.get("e") is not None]
+            rets_ = [n for n in dfl.own_walk(g_.body) if n.get("k") == "Return" and n.get("e") is not None]
             if len(rets_) == 1 and this_field(rets_[0]["e"]):
                 freqs_f = this_field(rets_[0]["e"])
-        inv = [c for c in calls_of(comp) if c.get("k") == "MCall" and callee_name(c) == "component_invert" and this_field(c.get("obj")) and (freqs_f is None or this_field(c.get("obj")) == freqs_f)]
+        rs_comp = Resolver(comp)
+        inv = [c for c in calls_of(comp) if c.get("k") == "MCall" and callee_name(c) == "component_invert" and field_of(rs_comp, c.get("obj")) and (freqs_f is None or field_of(rs_comp, c.get("obj")) == freqs_f)]
         if freqs_f is None:
-            freqs_f = this_field(inv[0]["obj"]) if len(inv) == 1 else None
+            freqs_f = field_of(rs_comp, inv[0]["obj"]) if len(inv) == 1 else None
         def do_compile():
             # ---- compile: freqs = 1 / (1 + sum over mirrors) -----------------------------------------------
             rs = Resolver(comp)
@@ -1241,9 +1273,9 @@ def check_gate(ck, facts, partial=False):
                     recv_ = dfl.receiver(c)
                     if c.get("k") == "MCall" and (c.get("obj") is None or c["obj"].get("k") == "This") and not c.get("cconst"):
                         out_.append(c)            # member helper
-                    elif recv_ is not None and this_field(recv_) == freqs_f and not c.get("cconst") and callee_name(c) not in ("format", "component_invert", "operator="):
+                    elif recv_ is not None and field_of(rs, recv_) == freqs_f and not c.get("cconst") and callee_name(c) not in ("format", "component_invert", "operator="):
                         out_.append(c)
-                    elif any(a_ is not recv_ and pt_ is not None and is_nonconst_ref(pt_) and this_field(a_) == freqs_f for a_, pn_, pt_ in dfl.call_args_with_params(c, comp)) \
+                    elif any(a_ is not recv_ and pt_ is not None and is_nonconst_ref(pt_) and field_of(rs, a_) == freqs_f for a_, pn_, pt_ in dfl.call_args_with_params(c, comp)) \
                             and callee_name(c) != "scatter_axpy":
                         out_.append(c)
                 return out_
@@ -1261,8 +1293,8 @@ def check_gate(ck, facts, partial=False):
             if True:
                 iv = inv[0]
                 x = dfl.arg_by_param(iv, "x")
-                if this_field(x) != freqs_f:
-                    problems.append((iv.get("l"), "component_invert(%s) does not invert %s itself" % (render(x), freqs_f)))
+                if field_of(rs, x) != freqs_f:
+                    (problems if field_of(rs, x) is not None else unknown).append((iv.get("l"), "component_invert(%s) does not invert %s itself" % (render(x), freqs_f)))
                 al = dfl.arg_by_param(iv, "alpha")
                 if al is not None and not is_lit_one(rs, al):
                     (problems if unwrap_val(rs, al).get("k") in ("Int", "Float") else unknown).append((iv.get("l"), "reciprocal taken with numerator %s" % render(al)))
@@ -1271,7 +1303,7 @@ def check_gate(ck, facts, partial=False):
                 mp, bad = cfg.must_pass(lambda n: n.get("i") == iv["i"])
                 if not mp:
                     problems.append((iv.get("l"), "a path leaves compile() without inverting the multiplicities"))
-                fm = [c for c in calls_of(comp) if c.get("k") == "MCall" and callee_name(c) == "format" and this_field(c.get("obj")) == freqs_f]
+                fm = [c for c in calls_of(comp) if c.get("k") == "MCall" and callee_name(c) == "format" and field_of(rs, c.get("obj")) == freqs_f]
                 if not (len(fm) == 1 and fm[0].get("a") and not dfl.enclosing_loops(comp, par, fm[0])):
                     unknown.append((comp.line, "%s is not initialised by exactly one format(value) call outside loops" % freqs_f))
                     fm = fm[:1]
@@ -1286,69 +1318,71 @@ def check_gate(ck, facts, partial=False):
                 for sc in scs:
                     loops = dfl.enclosing_loops(comp, par, sc)
                     tgt, buf, al = dfl.arg_by_param(sc, "vector"), dfl.arg_by_param(sc, "buffer"), dfl.arg_by_param(sc, "alpha")
-                    if this_field(tgt) != freqs_f:
-                        problems.append((sc.get("l"), "mirror contributions are added to %s instead of %s" % (render(tgt), freqs_f)))
+                    if field_of(rs, tgt) != freqs_f:
+                        (problems if field_of(rs, tgt) is not None else unknown).append((sc.get("l"), "mirror contributions are added to %s instead of %s" % (render(tgt), freqs_f)))
                     if al is not None and not is_lit_one(rs, al):
-                        problems.append((sc.get("l"), "mirror contribution scaled by %s" % render(al)))
+                        (problems if (unwrap_val(rs, al) or {}).get("k") in ("Int", "Float") else unknown).append((sc.get("l"), "mirror contribution scaled by %s" % render(al)))
                     if fm and not cfg.stmt_dominates(fm[0]["i"], sc["i"]):
                         problems.append((sc.get("l"), "contributions are added before %s is formatted" % freqs_f))
-                    if not cfg.stmt_dominates(sc["i"], iv["i"]) and loops:
-                        pass
+                    mo = sc.get("obj")
+                    mst = rs.path(mo).steps if mo is not None else ()
                     if len(loops) != 1:
                         unknown.append("scatter_axpy is not inside exactly one loop over the mirrors (loop structure not modelled)")
                     elif loops[0].get("k") == "ForRange":
                         L = loops[0]
-                        mo = sc.get("obj")
                         lv = (L.get("var") or {}).get("d")
-                        if this_field(L.get("range")) != mirrors_f:
+                        if field_of(rs, L.get("range")) != mirrors_f:
                             unknown.append("range-for over %s instead of the mirror array %s" % (render(L.get("range")), mirrors_f))
-                        elif rs.path(mo).steps != (("local", lv),):
+                        elif mst != (("local", lv),):
                             problems.append((sc.get("l"), "contribution scattered by %s, not by the mirror of the iteration" % render(mo)))
+                    else:
+                        # counting loop in any spelling (for / while, < / !=, hoisted bound): must run over 0 .. mirrors.size()
+                        L = loops[0]
+                        lr = norm.loop_range(comp, L, par)
+                        if lr is None or lr["sign"] < 0:
+                            unknown.append((L.get("l"), "the loop around scatter_axpy is not a recognised ascending counting loop"))
+                        else:
+                            bnd = unwrap_val(rs, lr["bound"])
+                            st0 = unwrap_val(rs, lr["start"])
+                            bound_ok = bnd is not None and bnd.get("k") == "MCall" and callee_name(bnd) == "size" and field_of(rs, bnd.get("obj")) == mirrors_f and lr["cmp"] in ("<", "!=")
+                            zero = st0 is not None and st0.get("k") == "Int" and str(st0.get("v")) == "0"
+                            if not (bound_ok and zero):
+                                understood = st0 is not None and st0.get("k") == "Int" and bnd is not None and (
+                                    bnd.get("k") in ("Int", "Bin") or (bnd.get("k") == "MCall" and callee_name(bnd) == "size" and field_of(rs, bnd.get("obj")) == mirrors_f))
+                                (problems if understood else unknown).append((L.get("l"), "the loop does not range over all mirrors 0 .. %s.size() (start %s, bound %s %s)" % (
+                                    mirrors_f, render(lr["start"]), lr["cmp"], render(lr["bound"])[:40])))
+                            if not (len(mst) == 3 and mst[0] == ("this",) and mst[1] == ("field", mirrors_f) and mst[2][0] in ("call", "index")):
+                                (problems if (mst and mst[0] == ("this",)) else unknown).append((sc.get("l"), "contribution scattered by %s, not by a mirror of %s" % (render(mo), mirrors_f)))
+                            else:
+                                # the subscript as the resolver normalised it (aliases of the mirror and const copies of the index are looked through)
+                                ixtext = mst[2][2] if mst[2][0] == "call" else mst[2][1]
+                                ivn = (rs.var(lr["var"]) or {}).get("n")
+                                if ixtext != ivn and re.sub(r"^[\w:<> ]+\((\w+)\)$", r"\1", str(ixtext)) != ivn:
+                                    (problems if re.match(r"^[\w\s+\-*()%:<>]+$", str(ixtext)) else unknown).append((sc.get("l"), "mirror subscript %s is not the loop index %s" % (ixtext, ivn)))
+                    # buffer: created by the same mirror for the frequency vector and filled with ones
+                    if len(loops) == 1:
                         if buf is None or buf.get("k") != "Ref" or buf.get("dk") != "local":
                             unknown.append("buffer %s is not a local buffer" % render(buf))
                         else:
                             v = rs.var(buf["d"])
                             ini = v.get("init") if v else None
+                            while ini is not None and ini.get("k") in ("Construct", "TempObj") and len(ini.get("a", [])) == 1:
+                                ini = ini["a"][0]
                             if not (ini is not None and ini.get("k") == "MCall" and callee_name(ini) == "create_buffer"):
                                 unknown.append("creation of the buffer %s not understood" % render(buf))
                             elif rs.path(ini.get("obj")) != rs.path(mo):
                                 problems.append((sc.get("l"), "buffer %s is not created by the mirror that scatters it" % render(buf)))
-                            wr = [m for m in calls_of(comp) if m.get("k") == "MCall" and (m.get("obj") or {}).get("d") == buf["d"] and not m.get("cconst") and cfg.stmt_dominates(m["i"], sc["i"])]
+                            wr = [m for m in calls_of(comp) if m.get("k") == "MCall" and rs.path(m.get("obj")) == rs.path(buf) and not m.get("cconst") and cfg.stmt_dominates(m["i"], sc["i"])]
                             if not wr:
                                 unknown.append("buffer %s is not filled by a member call before it is scattered" % render(buf))
                             elif not (callee_name(wr[-1]) == "format" and wr[-1].get("a")):
                                 unknown.append("buffer %s is filled by %s, which is not modelled" % (render(buf), render(wr[-1])[:40]))
                             elif not is_lit_one(rs, wr[-1]["a"][0]):
-                                problems.append((sc.get("l"), "buffer %s is formatted to %s instead of ones before it is scattered" % (render(buf), render(wr[-1]["a"][0]))))
-                    else:
-                        L = loops[0]
-                        c = L.get("c")
-                        bnd = rs.value(c["rhs"]) if c is not None and c.get("k") == "Bin" and c.get("op") == "<" else None
-                        bound_ok = bnd is not None and bnd.get("k") == "MCall" and callee_name(bnd) == "size" and this_field(bnd.get("obj")) == mirrors_f
-                        ini = L.get("init")
-                        zero = ini is not None and ini.get("k") == "Decl" and len(ini["vars"]) == 1 and (unwrap_val(rs, ini["vars"][0].get("init")) or {}).get("v") in ("0", 0)
-                        if not (bound_ok and zero):
-                            problems.append((L.get("l"), "the loop does not range over all mirrors 0 .. %s.size()" % mirrors_f))
-                        mo = sc.get("obj")
-                        mst = rs.path(mo).steps if mo is not None else ()
-                        if not (len(mst) == 3 and mst[0] == ("this",) and mst[1] == ("field", mirrors_f) and mst[2][0] == "call" and mst[2][1] == "at"):
-                            problems.append((sc.get("l"), "contribution scattered by %s, not by a mirror of %s" % (render(mo), mirrors_f)))
-                        # buffer: created by the same mirror for the frequency vector and filled with ones
-                        if buf is None or buf.get("k") != "Ref" or buf.get("dk") != "local":
-                            problems.append((sc.get("l"), "buffer %s is not a local buffer" % render(buf)))
-                        else:
-                            v = rs.var(buf["d"])
-                            ini = v.get("init") if v else None
-                            if not (ini is not None and ini.get("k") == "MCall" and callee_name(ini) in ("create_buffer",) and mo is not None and rs.path(ini.get("obj")) == rs.path(mo)):
-                                problems.append((sc.get("l"), "buffer %s is not created by the mirror that scatters it" % render(buf)))
-                            wr = [m for m in calls_of(comp) if m.get("k") == "MCall" and (m.get("obj") or {}).get("d") == buf["d"] and not m.get("cconst") and cfg.stmt_dominates(m["i"], sc["i"])]
-                            if not (wr and callee_name(wr[-1]) == "format" and wr[-1].get("a") and is_lit_one(rs, wr[-1]["a"][0])):
-                                problems.append((sc.get("l"), "buffer %s is not filled with ones before it is scattered" % render(buf)))
-                    if not (len(loops) == 1 and cfg.stmt_dominates(fm[0]["i"] if fm else sc["i"], sc["i"])):
-                        pass
+                                (problems if (unwrap_val(rs, wr[-1]["a"][0]) or {}).get("k") in ("Int", "Float") else unknown).append(
+                                    (sc.get("l"), "buffer %s is formatted to %s instead of ones before it is scattered" % (render(buf), render(wr[-1]["a"][0]))))
                 # nothing touches the frequencies after the inversion
                 for c in calls_of(comp):
-                    if c.get("k") == "MCall" and this_field(c.get("obj")) == freqs_f and not c.get("cconst") and c is not iv and cfg.stmt_dominates(iv["i"], c["i"]):
+                    if c.get("k") == "MCall" and field_of(rs, c.get("obj")) == freqs_f and not c.get("cconst") and c is not iv and cfg.stmt_dominates(iv["i"], c["i"]):
                         (problems if callee_name(c) in ("format", "scale", "component_invert", "component_product", "axpy", "copy", "clear") else unknown).append(
                             (c.get("l"), "%s modified after the inversion by %s" % (freqs_f, callee_name(c))))
                 if scs and dfl.enclosing_loops(comp, par, scs[0]):
@@ -1374,7 +1408,7 @@ def check_gate(ck, facts, partial=False):
                 c = val(c)
                 if c is None:
                     return None
-                if c.get("k") == "MCall" and callee_name(c) == "empty" and this_field(val(c.get("obj"))) == ranks_f:
+                if c.get("k") == "MCall" and callee_name(c) == "empty" and field_of(rs_, val(c.get("obj"))) == ranks_f:
                     return ("E", True)
                 if is_comm(c):
                     return ("N", False)
@@ -1394,7 +1428,7 @@ def check_gate(ck, facts, partial=False):
                             single = {("==", 1): True, ("!=", 1): False, ("<=", 1): True, ("<", 2): True, (">", 1): False, (">=", 2): False}.get((op, k_))
                             if single is not None:
                                 return ("S", single)
-                        elif this_field(val(l.get("obj"))) == ranks_f:
+                        elif field_of(rs_, val(l.get("obj"))) == ranks_f:
                             empty = {("==", 0): True, ("!=", 0): False, ("<=", 0): True, ("<", 1): True, (">", 0): False, (">=", 1): False}.get((op, k_))
                             if empty is not None:
                                 return ("E", empty)
@@ -1445,7 +1479,7 @@ def check_gate(ck, facts, partial=False):
                         sq = unwrap_val(rs, o["a"][1]) if len(o["a"]) > 1 else None
                         if sq is None or (sq.get("k") == "Bool" and not sq.get("v")):
                             return leaves(o["a"][0], cons, unk, env, True, depth + 1)      # sum(v) is sum_async(v).wait() (E4.gate-reduction-op)
-                if e.get("k") == "MCall" and callee_name(e) == "triple_dot" and this_field(resolve(e.get("obj"), env)) == freqs_f and len(e.get("a", [])) == 2 and is_xy(e["a"][0], e["a"][1], env):
+                if e.get("k") == "MCall" and callee_name(e) == "triple_dot" and field_of(rs, resolve(e.get("obj"), env)) == freqs_f and len(e.get("a", [])) == 2 and is_xy(e["a"][0], e["a"][1], env):
                     return [(cons, unk, "weighted" if summed else None)]
                 if e.get("k") == "MCall" and callee_name(e) == "dot" and len(e.get("a", [])) == 1 and is_xy(e.get("obj") or {}, e["a"][0], env):
                     return [(cons, unk, "summed" if summed else "local")]
@@ -1483,7 +1517,7 @@ def check_gate(ck, facts, partial=False):
         da = one("dot_async")
         if da is not None:
             rsa = Resolver(da)
-            rets = [n for n in walk(da.body) if n.get("k") == "Return"]
+            rets = [n for n in dfl.own_walk(da.body) if n.get("k") == "Return"]
             bad, unk_ = [], []
             if len(rets) != 1:
                 unk_.append("%d return statements" % len(rets))
@@ -1495,7 +1529,7 @@ def check_gate(ck, facts, partial=False):
                     t = unwrap_val(rsa, e["a"][0])
                     if t is not None and t.get("k") == "MCall" and callee_name(t) == "dot" and len(t.get("a", [])) == 1:
                         bad.append("the local contribution %s is the unweighted dot product: shared dofs are counted once per sharing process" % render(t)[:50])
-                    elif not (t is not None and t.get("k") == "MCall" and callee_name(t) == "triple_dot" and this_field(rsa.value(t.get("obj"))) == freqs_f and len(t["a"]) == 2):
+                    elif not (t is not None and t.get("k") == "MCall" and callee_name(t) == "triple_dot" and field_of(rsa, rsa.value(t.get("obj"))) == freqs_f and len(t["a"]) == 2):
                         unk_.append("local contribution %s not understood" % render(t)[:60])
                     else:
                         ds_ = {(rsa.value(t["a"][0]) or {}).get("d"), (rsa.value(t["a"][1]) or {}).get("d")}
@@ -1636,6 +1670,10 @@ def check_gate(ck, facts, partial=False):
                     doubts.append((n.get("l"), "wait() on %s, which is not recognised as the ticket of the exchange" % render(o)[:40]))
                     return st
                 # anything else that may touch the vector or a ticket
+                lam_ = dfl.lambda_body_of(rs, n)
+                if lam_ is not None:
+                    doubts.append((n.get("l"), "the closure called by %s is not followed" % render(n)[:40]))
+                    return st
                 if n.get("callee") in dfl.MOVE_FNS or n.get("callee") == "FEAT::assertion" or n.get("cconst"):
                     return st
                 if n.get("k") in ("Construct", "TempObj") and strip_targs(n.get("ccls", "")) == "FEAT::Global::SynchVectorTicket":
@@ -1701,7 +1739,7 @@ def reduction_of(fns, f, depth=0):
         return None, "forwarding chain too deep"
     rs = Resolver(f)
     assigned = dfl.assigned_decls(f)
-    rets = [n for n in walk(f.body) if n.get("k") == "Return"]
+    rets = [n for n in dfl.own_walk(f.body) if n.get("k") == "Return"]
     if len(rets) != 1 or rets[0].get("e") is None:
         return None, "%d return statements" % len(rets)
     xd = f.params[0]["d"]
@@ -1837,7 +1875,7 @@ def check_reductions(ck, facts, partial=False):
                     else:
                         unk = True
                 a = rsr.value(c["a"][0]) if c.get("a") else None
-                if not (a is not None and a.get("k") == "MCall" and this_field(a.get("obj")) is not None):
+                if not (a is not None and a.get("k") == "MCall" and field_of(rsr, a.get("obj")) is not None):
                     unk = True
                 elif callee_name(a) != want_local:
                     problems.append("reduces %s, expected the local %s() of the own vector" % (render(a), want_local))
@@ -1845,9 +1883,10 @@ def check_reductions(ck, facts, partial=False):
                 ck.incomplete("E4.gate-reduction-op", "%s::%s: reduced quantity / gate operation of %s not understood" % (ckey(fn.cls), fn.name, render(gcalls[0])[:60]))
                 continue
             # the gate-less fallback returns the same local quantity
-            for r_ in [n for n in walk(fn.body) if n.get("k") == "Return"]:
+            for r_ in [n for n in dfl.own_walk(fn.body) if n.get("k") == "Return"]:
                 e = r_.get("e")
-                if e is not None and e.get("k") == "MCall" and e not in gcalls and this_field(e.get("obj")) is not None and callee_name(e) != want_local:
+                e = rsr.value(e) if e is not None else None
+                if e is not None and e.get("k") == "MCall" and e not in gcalls and field_of(rsr, e.get("obj")) is not None and callee_name(e) != want_local:
                     problems.append("fallback returns local %s(), expected %s()" % (callee_name(e), want_local))
             ck.ob("E4.gate-reduction-op", "%s::%s" % (ckey(fn.cls), fn.name), not problems, "; ".join(problems) or "-> Gate::%s(local %s())" % (want_gate, want_local), fn.file, fn.line)
 
@@ -1860,55 +1899,148 @@ VEC_DELEGATE = {
 }
 
 
+VEC_EXPECT = dict({k: ("gate", g, a) for k, (g, a) in VEC_DELEGATE.items()},
+                  norm2sqr=("gate", "dot", ("v", "v")), norm2sqr_async=("gate", "dot_async", ("v", "v")), norm2=("sqrt", ("gate", "dot", ("v", "v"))))
+
+
+def vector_effect(fns, fn, depth=0):
+    """(effect, None) | (None, reason) | ('bad', text): what a Global::Vector member does in terms of gate operations on (v = own local vector, x = x.local()):
+    ('gate', method, args) | ('sqrt', effect).  Own members called on *this are followed (one overload / member forwarding to its sibling):
+    dot(*this) == gate.dot(v, v); from_1_to_0(); sync_0() == gate.sync_1(v)."""
+    if depth > 3:
+        return None, "forwarding chain too deep"
+    rs = Resolver(fn)
+    xd = fn.params[0]["d"] if fn.params else None
+
+    def argkind(a):
+        st_ = rs.path(a).steps
+        if len(st_) == 2 and st_[0] == ("this",) and st_[1][0] == "field":
+            return "v"
+        if xd is not None and param_local(a, xd, rs):
+            return "x"
+        v_ = strip_casts(rs, a)
+        if v_ is not None and v_.get("k") == "Bool":
+            return bool(v_.get("v"))
+        if v_ is not None and v_.get("k") == "Ref" and v_.get("dk") == "param":
+            return ("param", [p["d"] for p in fn.params].index(v_["d"]))
+        return None
+
+    def selfkind(a):
+        """argument of a call of an own member taking `const Vector& x`:  *this -> 'v',  the own parameter x -> 'x'"""
+        a = rs.value(a)
+        if a is not None and ((a.get("k") == "Un" and a.get("op") == "*" and a["e"].get("k") == "This") or (a.get("k") == "OpCall" and a.get("op") == "*" and a["a"][0].get("k") == "This")):
+            return "v"
+        if a is not None and rs.path(a).steps == (("param", xd),):
+            return "x"
+        return argkind(a)
+    effs = []
+    for c in calls_of(fn):
+        if c.get("k") != "MCall":
+            continue
+        if strip_targs(c.get("ccls", "")) == "FEAT::Global::Gate" and callee_name(c) not in ("get_comm",):
+            ks = [argkind(a) for a in c.get("a", [])]
+            if any(k_ is None for k_ in ks):
+                return None, "argument list of %s not understood" % render(c)[:60]
+            effs.append((c, ("gate", callee_name(c), tuple(ks))))
+        elif strip_targs(c.get("ccls", "")) == "FEAT::Global::Vector" and (c.get("obj") is None or c["obj"].get("k") == "This") and callee_name(c) in VEC_EXPECT:
+            g = [g_ for g_ in fns.get(callee_name(c), []) if g_ is not fn and len(g_.params) == len(c.get("a", []))]
+            if len(g) != 1:
+                return None, "own member %s not found" % callee_name(c)
+            sub, why = vector_effect(fns, g[0], depth + 1)
+            if sub is None or sub == "bad":
+                return None, "own member %s: %s" % (callee_name(c), why)
+            ks = [selfkind(a) for a in c.get("a", [])]
+            if any(k_ is None for k_ in ks):
+                return None, "argument list of %s not understood" % render(c)[:60]
+
+            def subst(e, ks=ks):
+                if e[0] == "sqrt":
+                    return ("sqrt", subst(e[1]))
+                out_ = []
+                for k_ in e[2]:
+                    if k_ == "x":
+                        out_.append(ks[0] if ks else None)
+                    elif isinstance(k_, tuple) and k_[0] == "param":
+                        out_.append(ks[k_[1]] if k_[1] < len(ks) else None)
+                    else:
+                        out_.append(k_)
+                return ("gate", e[1], tuple(out_))
+            effs.append((c, subst(sub)))
+    if not effs:
+        return None, "no gate call and no call of an own member"
+    # from_1_to_0 followed by a type-0 synchronisation is the type-1 synchronisation
+    if len(effs) == 2 and fn.cfg is not None:
+        (c1, e1), (c2, e2) = effs
+        if not fn.cfg.stmt_dominates(c1["i"], c2["i"]):
+            (c1, e1), (c2, e2) = (c2, e2), (c1, e1)
+        if e1 == ("gate", "from_1_to_0", ("v",)) and e2[0] == "gate" and e2[1] in ("sync_0", "sync_0_async") and e2[2] == ("v",) and fn.cfg.stmt_dominates(c1["i"], c2["i"]):
+            effs = [(c2, ("gate", e2[1].replace("sync_0", "sync_1"), ("v",)))]
+    if len(effs) == 2 and fn.cfg is not None and all(e_[0] == "gate" for c_, e_ in effs):
+        (c1, e1), (c2, e2) = effs
+        if fn.cfg.stmt_dominates(c2["i"], c1["i"]):
+            (c1, e1), (c2, e2) = (c2, e2), (c1, e1)
+        if fn.cfg.stmt_dominates(c1["i"], c2["i"]):
+            return ("seq", e1, e2), None          # two understood gate operations in sequence: not a form any member is expected to have
+    if len(effs) != 1:
+        return None, "%d gate / own-member calls (expected one)" % len(effs)
+    c, eff = effs[0]
+    # value wrappers around the call: Math::sqrt(...)
+    par = dfl.parents(fn)
+    cur = c
+    hops = 0
+    while id(cur) in par and hops < 40:
+        hops += 1
+        cur, slot = par[id(cur)]
+        if cur.get("k") == "Call" and strip_targs(cur.get("callee", "")) == "FEAT::Math::sqrt":
+            eff = ("sqrt", eff)
+        elif cur.get("k") == "Var" and not cur.get("ref") and cur["d"] not in dfl.assigned_decls(fn):
+            uses = [x for x in dfl.own_nodes(fn) if x.get("k") == "Ref" and x.get("d") == cur["d"]]
+            if len(uses) != 1:
+                break
+            cur = uses[0]          # a named temporary: follow the value to its single use
+        elif cur.get("k") in ("Return", "Var", "Decl", "Block", "If"):
+            break
+    return eff, None
+
+
+def norm_effect(e):
+    """drop defaulted trailing `false` arguments: dot_async(v, x, false) == dot_async(v, x)"""
+    if e[0] == "sqrt":
+        return ("sqrt", norm_effect(e[1]))
+    if e[0] == "seq":
+        return ("seq", norm_effect(e[1]), norm_effect(e[2]))
+    args = list(e[2])
+    while args and args[-1] is False:
+        args.pop()
+    return ("gate", e[1], tuple(args))
+
+
+def fmt_effect(e):
+    if e[0] == "sqrt":
+        return "sqrt(%s)" % fmt_effect(e[1])
+    if e[0] == "seq":
+        return "%s; %s" % (fmt_effect(e[1]), fmt_effect(e[2]))
+    return "Gate::%s(%s)" % (e[1], ", ".join(map(str, e[2])))
+
+
 def check_global_vector(ck, facts):
+    by_cls = {}
     for fn in facts.functions:
-        if fn.tk == "pattern" or strip_targs(fn.cls) != "FEAT::Global::Vector" or fn.name not in VEC_DELEGATE:
+        if fn.tk != "pattern" and strip_targs(fn.cls) == "FEAT::Global::Vector":
+            by_cls.setdefault(fn.cls, {}).setdefault(fn.name, []).append(fn)
+    for fn in facts.functions:
+        if fn.tk == "pattern" or strip_targs(fn.cls) != "FEAT::Global::Vector" or fn.name not in VEC_EXPECT or fn.name == "norm2sqr_async":
             continue
-        gname, argspec = VEC_DELEGATE[fn.name]
         key = "%s::%s" % (ckey(fn.cls), fn.name)
-        rsv = Resolver(fn)
-        gcalls = [c for c in calls_of(fn) if c.get("k") == "MCall" and strip_targs(c.get("ccls", "")) == "FEAT::Global::Gate" and callee_name(c) not in ("get_comm",)]
-        problems, unknown = [], []
-        if len(gcalls) != 1:
-            unknown.append("%d gate calls (expected one)" % len(gcalls))
-        for c in gcalls:
-            if callee_name(c) != gname:
-                problems.append("delegates to Gate::%s, expected Gate::%s" % (callee_name(c), gname))
-            args = c.get("a", [])
-            if len(args) < len(argspec):
-                unknown.append("argument list of %s not understood" % render(c)[:60])
-                continue
-            for a, sp in zip(args, argspec):
-                st_ = rsv.path(a).steps
-                own = len(st_) == 2 and st_[0] == ("this",) and st_[1][0] == "field"
-                xloc = bool(fn.params) and param_local(a, fn.params[0]["d"], rsv)
-                if sp == "v" and not own:
-                    (problems if xloc else unknown).append("argument %s is not the own local vector" % render(a))
-                elif sp == "x" and not xloc:
-                    (problems if own else unknown).append("argument %s is not x.local()" % render(a))
-                elif sp is True:
-                    v_ = strip_casts(rsv, a)
-                    if v_.get("k") != "Bool":
-                        unknown.append("sqrt flag %s not understood" % render(a))
-                    elif not v_.get("v"):
-                        problems.append("sqrt flag %s, expected true" % render(a))
-        if unknown and not problems:
-            ck.incomplete("E4.vector-delegate", "%s: %s" % (key, "; ".join(unknown)[:300]))
+        want = VEC_EXPECT[fn.name]
+        eff, why = vector_effect(by_cls[fn.cls], fn)
+        if eff is None:
+            ck.incomplete("E4.vector-delegate", "%s: %s" % (key, why))
             continue
-        ck.ob("E4.vector-delegate", key, not problems, "; ".join(problems) or "-> Gate::%s(%s)" % (gname, ", ".join(map(str, argspec))), fn.file, fn.line)
-    for fn in facts.functions:
-        if fn.tk == "pattern" or strip_targs(fn.cls) != "FEAT::Global::Vector" or fn.name not in ("norm2sqr", "norm2"):
-            continue
-        rets = [n for n in walk(fn.body) if n.get("k") == "Return"]
-        e = rets[0].get("e") if len(rets) == 1 else None
-        if fn.name == "norm2sqr":
-            ok = e is not None and e.get("k") == "MCall" and callee_name(e) == "dot" and (e.get("obj") is None or e["obj"].get("k") == "This") and len(e["a"]) == 1 and render(e["a"][0]) in ("(*this)", "*this")
-        else:
-            ok = e is not None and e.get("k") == "Call" and e.get("callee") == "FEAT::Math::sqrt" and len(e["a"]) == 1 and e["a"][0].get("k") == "MCall" and callee_name(e["a"][0]) == "norm2sqr"
-        if not ok:
-            ck.incomplete("E4.vector-delegate", "%s::%s: return value %s is not the modelled composition (norm2sqr = dot(*this), norm2 = sqrt(norm2sqr()))" % (ckey(fn.cls), fn.name, render(e)[:60]))
-            continue
-        ck.ob("E4.vector-delegate", "%s::%s" % (ckey(fn.cls), fn.name), ok, "returns %s" % render(e), fn.file, fn.line)
+        # a sqrt flag passed through from the own parameter list is the documented form of dot_async
+        got = norm_effect(("gate", eff[1], tuple(a for a in eff[2] if not (isinstance(a, tuple) and a[0] == "param"))) if eff[0] == "gate" else eff)
+        ok = got == norm_effect(want)
+        ck.ob("E4.vector-delegate", key, ok, ("-> %s" % fmt_effect(got)) if ok else "does %s, expected %s" % (fmt_effect(got), fmt_effect(norm_effect(want))), fn.file, fn.line)
 
 
 def check_muxer(ck, facts):
@@ -1930,46 +2062,85 @@ def check_muxer(ck, facts):
             continue
         co, mo = colls[0], mops[0]
         a = {pn: x for x, pn, pt in dfl.call_args_with_params(co, fn)}
-        sc, rc = this_field(rs.value(a.get("sendcount"))), this_field(rs.value(a.get("recvcount")))
-        if sc is None or sc != rc:
+        sc, rc = field_of(rs, rs.value(a.get("sendcount"))), field_of(rs, rs.value(a.get("recvcount")))
+        if sc is None or rc is None:
+            ck.incomplete("E14.muxer-slices", "%s: counts (%s, %s) of the collective %s not understood" % (key, render(a.get("sendcount")), render(a.get("recvcount")), coll_name))
+            continue
+        if sc != rc:
             problems.append((co.get("l"), "collective %s uses counts (%s, %s): every sibling must contribute / receive the same slice length" % (coll_name, render(a.get("sendcount")), render(a.get("recvcount")))))
         B = sc
+        unknown = []
         L = dfl.enclosing_loops(fn, par, mo)[-1]
-        ini = L.get("init")
-        iv = ini["vars"][0]["d"] if ini is not None and ini.get("k") == "Decl" and len(ini.get("vars", [])) == 1 else None
+        lr = norm.loop_range(fn, L, par)
+        if lr is None or lr["sign"] < 0:
+            ck.incomplete("E14.muxer-slices", "%s: the loop around the per-child mirror operation is not a recognised ascending counting loop (%s)" % (key, render(L)[:50]))
+            continue
+        iv = lr["var"]
+        ivn = (rs.var(iv) or {}).get("n")
         recv = mo.get("obj")
         mst = rs.path(recv).steps
-        if not (len(mst) == 3 and mst[0] == ("this",) and mst[1][0] == "field" and mst[2][0] == "call" and mst[2][1] == "at"):
-            problems.append((mo.get("l"), "per-child operation is not executed by an element of the child mirror array"))
+        if not (len(mst) == 3 and mst[0] == ("this",) and mst[1][0] == "field" and mst[2][0] in ("call", "index") and (mst[2][0] == "index" or mst[2][1] == "at")):
+            (problems if (mst and mst[0] == ("this",) and len(mst) == 2) else unknown).append((mo.get("l"), "per-child operation is not executed by an element of the child mirror array"))
             cm = None
         else:
             cm = mst[1][1]
-            ix = rs.value(recv["a"][0]) if recv.get("k") == "MCall" else None
-            if not (ix is not None and ix.get("k") == "Ref" and ix.get("d") == iv):
-                problems.append((mo.get("l"), "child mirror subscripted with %s instead of the loop's child index" % render(ix)))
+            ixtext = str(mst[2][2] if mst[2][0] == "call" else mst[2][1])
+            if ixtext != ivn and re.sub(r"^[\w:<> ]+\((\w+)\)$", r"\1", ixtext) != ivn:
+                (problems if re.match(r"^[\w\s+\-*()%:<>]+$", ixtext) else unknown).append((mo.get("l"), "child mirror subscripted with %s instead of the loop's child index %s" % (ixtext, ivn)))
         off = rs.value(dfl.arg_by_param(mo, "buffer_offset")) if dfl.arg_by_param(mo, "buffer_offset") is not None else None
         ok_off = False
-        if off is not None and off.get("k") == "Bin" and off.get("op") == "*":
-            for x, y in ((off["lhs"], off["rhs"]), (off["rhs"], off["lhs"])):
-                x, y = rs.value(x), rs.value(y)
-                if x.get("k") == "Ref" and x.get("d") == iv and this_field(y) == B and B is not None:
+        off_s = unwrap_val(rs, off) if off is not None else None
+        if off_s is not None and off_s.get("k") == "Bin" and off_s.get("op") == "*":
+            for x, y in ((off_s["lhs"], off_s["rhs"]), (off_s["rhs"], off_s["lhs"])):
+                x, y = unwrap_val(rs, x), rs.value(y)
+                if x is not None and x.get("k") == "Ref" and x.get("d") == iv and field_of(rs, y) == B and B is not None:
                     ok_off = True
+        pure = lambda e_: e_ is not None and all(x.get("k") in ("Bin", "Ref", "Int", "Member", "This", "Cast") or (x.get("k") == "MCall" and x.get("cconst")) for x in walk(e_))
+        run_note = None
+        if not ok_off and off_s is not None and off_s.get("k") == "Ref" and off_s.get("dk") == "local" and off_s["d"] in dfl.assigned_decls(fn):
+            # a running offset:  T o(0); for(i ...) { use(o); o += S; }  ==  i * S  (closed form of the counter) if S does not change
+            d_ = off_s["d"]
+            mods_ = norm._mods_of(fn).get(d_, [])
+            v_ = rs.var(d_)
+            st_ = norm._step_of(mods_[0]) if len(mods_) == 1 else None
+            ini_ = unwrap_val(rs, v_.get("init")) if v_ is not None and v_.get("init") is not None else None
+            same_level = v_ is not None and [id(x) for x in dfl.enclosing_loops(fn, par, v_)] == [id(x) for x in dfl.enclosing_loops(fn, par, L)]
+            km_ = norm.KernelModel(fn)
+            ph_ = km_._phase(mo, L, mods_[0]) if len(mods_) == 1 and any(node is L for node, sl in dfl.enclosing_stmt_chain(par, mods_[0])) else None
+            if st_ is not None and st_[0] > 0 and st_[1] is not None and same_level and ini_ is not None and ini_.get("k") == "Int" and str(ini_.get("v")) == "0" \
+                    and norm.once_per_iteration(fn, par, L, mods_[0]) and ph_ is not None and lr["sign"] > 0 and str((unwrap_val(rs, lr["start"]) or {}).get("v")) == "0":
+                step_ = rs.value(st_[1])
+                if ph_ == 0 and field_of(rs, step_) == B and B is not None:
+                    ok_off = True
+                elif pure(step_):
+                    run_note = "running offset %s advanced by %s per child%s" % (render(off_s), render(st_[1])[:50], "" if ph_ == 0 else " before it is used")
         if not ok_off:
-            understood = off is not None and all(x.get("k") in ("Bin", "Ref", "Int", "Member", "This", "Cast") or (x.get("k") == "MCall" and x.get("cconst")) for x in walk(off))
-            if understood and B is not None:
+            understood = pure(off) and not any(x.get("k") == "Ref" and x.get("dk") == "local" and x.get("d") != iv and x.get("d") in dfl.assigned_decls(fn) for x in walk(off))
+            if run_note is not None and B is not None:
+                problems.append((mo.get("l"), "buffer offset of child i is not i * %s (the slice length of the collective): %s" % (B, run_note)))
+                understood = None
+            if understood is None:
+                pass
+            elif understood and B is not None:
                 problems.append((mo.get("l"), "buffer offset %s of child i is not i * %s (the slice length of the collective)" % (render(off), B)))
             else:
                 ck.incomplete("E14.muxer-slices", "%s: buffer offset %s of the per-child mirror operation not understood" % (key, render(off)))
                 continue
         # loop range = all children
-        c = L.get("c")
-        bnd = unwrap_val(rs, c["rhs"]) if c is not None and c.get("k") == "Bin" and c.get("op") == "<" else None
-        if not (bnd is not None and bnd.get("k") == "MCall" and callee_name(bnd) == "size" and this_field(bnd.get("obj")) == cm):
-            problems.append((L.get("l"), "the child loop does not range over all child mirrors"))
+        bnd = unwrap_val(rs, lr["bound"])
+        st0 = unwrap_val(rs, lr["start"])
+        full = bnd is not None and bnd.get("k") == "MCall" and callee_name(bnd) == "size" and field_of(rs, bnd.get("obj")) == cm and lr["cmp"] in ("<", "!=") \
+            and st0 is not None and st0.get("k") == "Int" and str(st0.get("v")) == "0"
+        if not full and cm is not None:
+            understood = st0 is not None and st0.get("k") == "Int" and bnd is not None and (bnd.get("k") in ("Int", "Bin") or (bnd.get("k") == "MCall" and callee_name(bnd) == "size" and field_of(rs, bnd.get("obj")) is not None))
+            (problems if understood else unknown).append((L.get("l"), "the child loop does not range over all child mirrors (start %s, bound %s %s)" % (render(lr["start"]), lr["cmp"], render(lr["bound"])[:40])))
         # the buffer of the per-child operation is the array the collective fills / sends
         cb = dfl.arg_by_param(mo, "buffer")
         other = a.get("recvbuf") if fn.name == "join" else a.get("sendbuf")
-        if cb is None or other is None or other.get("k") != "MCall" or rs.path(other.get("obj")) != rs.path(cb):
+        other = rs.value(other) if other is not None else None
+        if cb is None or other is None or other.get("k") != "MCall":
+            unknown.append((mo.get("l"), "buffers of the per-child operation / the collective not understood (%s, %s)" % (render(cb), render(other))))
+        elif rs.path(other.get("obj")) != rs.path(cb):
             problems.append((mo.get("l"), "per-child mirror works on %s but the collective %s %s" % (render(cb), "fills" if fn.name == "join" else "sends", render(other))))
         if fn.name == "join":
             if not cfg.stmt_dominates(co["i"], mo["i"]):
@@ -1978,13 +2149,19 @@ def check_muxer(ck, facts):
             fm = [m for m in calls_of(fn) if m.get("k") == "MCall" and callee_name(m) == "format" and trg is not None and rs.path(m.get("obj")) == rs.path(trg) and not dfl.enclosing_loops(fn, par, m)
                   and cfg.stmt_dominates(m["i"], mo["i"])]
             if not fm:
-                problems.append((mo.get("l"), "target vector is not formatted before the child contributions are added"))
+                tp_ = rs.path(trg) if trg is not None else None
+                other_def = [u for u in dfl.unmodelled_mutable_uses(fn, rs, tp_, modelled=("scatter_axpy",)) if "i" in u and not cfg.stmt_dominates(mo["i"], u["i"])] if tp_ is not None and not tp_.opaque() else [None]
+                (unknown if other_def else problems).append((mo.get("l"), "target vector is not formatted before the child contributions are added" + (
+                    " (it is handed to %s, which is not modelled)" % render(other_def[0])[:40] if other_def and other_def[0] is not None else "")))
         else:
             # the child loop as a whole precedes the collective (the loop header dominates it, the collective is outside the loop)
             hdr = [b["id"] for b in cfg.blocks.values() if b.get("term_id") == L.get("i")]
             wco = cfg.block_of(co["i"])
             if dfl.enclosing_loops(fn, par, co) or not (hdr and wco is not None and hdr[0] in cfg.dom.get(wco[0], ())):
                 problems.append((co.get("l"), "the collective scatter sends the child buffers before they are gathered"))
+        if unknown and not problems:
+            ck.incomplete("E14.muxer-slices", "%s: %s" % (key, "; ".join("line %s: %s" % u for u in unknown)[:300]))
+            continue
         ck.ob("E14.muxer-slices", key, not problems, "; ".join("line %s: %s" % p for p in problems) or
               "child mirror i <-> slice i*%s of the child buffer; collective %s with counts (%s, %s)" % (B, coll_name, B, B), fn.file, problems[0][0] if problems else fn.line)
 
@@ -2094,13 +2271,13 @@ def check_exchange_order(ck, facts):
                         return False
                     bad = []
                     for sc in scat:
-                        defs = [n for n in fn.nodes() if is_def(n) and "i" in n and cfg.stmt_dominates(n["i"], sc["i"])]
+                        defs = [n for n in dfl.own_nodes(fn) if is_def(n) and "i" in n and cfg.stmt_dominates(n["i"], sc["i"])]
                         if defs:
                             continue
                         other = [u for u in dfl.unmodelled_mutable_uses(fn, rs, T, modelled=("scatter_axpy",) + definers) if "i" in u and not cfg.stmt_dominates(sc["i"], u["i"])]
                         if other:
                             doubts.append("%s may be defined by %s, which is not modelled" % (p["n"], render(other[0])[:50]))
-                        elif any(is_def(n) for n in fn.nodes()):
+                        elif any(is_def(n) for n in dfl.own_nodes(fn)):
                             bad.append((sc.get("l"), "a path reaches %s without %s being formatted / assigned before" % (render(sc)[:50], p["n"])))
                         else:
                             bad.append((sc.get("l"), "%s is only added to (%s) and never formatted / assigned in this function: for a re-used vector the previous contents survive "
@@ -2243,20 +2420,31 @@ def declare_rules(ck):
             "vector: dofs shared between parent patches hold only the local sum", 6)
 
 
+MODELLED_MEMBERS = {m.split("/")[0] for ms in CURATED.values() for m in ms} | {
+    "local", "get_comm", "get_freqs", "get_gate", "convert", "clone", "format", "copy", "clear", "component_product", "component_invert", "triple_dot",
+    "wait", "sync_0", "sync_1", "join", "join_send", "split", "split_recv", "gather", "scatter_axpy", "create_buffer", "buffer_size"}
+
+
+def inline_select(fn):
+    """helpers that may be inlined into fn: defined in the same file and not one of the members the rules of this check model by name"""
+    def select(call, g):
+        return g.file == fn.file and g.name not in MODELLED_MEMBERS and not g.d.get("ctor") and not g.d.get("dtor")
+    return select
+
+
 def analyse(ck, facts, label):
     check_e0(ck, facts, label)
     check_requests(ck, facts)
     check_coherence(ck, facts)
     check_kernels(ck, facts)
-    check_global_matrix(ck, facts)
-    check_gate(ck, facts)
-    check_global_vector(ck, facts)
-    check_reductions(ck, facts)
-    check_muxer(ck, facts)
-    check_const_alias(ck, facts)
-    check_exchange_order(ck, facts)
+    # rules that look at one member function at a time: if a run meets a member helper / local lambda it does not model, the run is repeated
+    # with such same-file helpers inlined (parameters bound, CFG spliced); check_requests / check_coherence / check_exchange_order follow helpers themselves
+    inl = norm.InlinedFacts(facts, inline_select)
     from checks import c18 as _c18
-    _c18.check_global_transfer(ck, facts)
+    for rule_fn in (check_global_matrix, check_gate, check_global_vector, check_reductions, check_muxer, check_const_alias):
+        norm.run_with_inlining(ck, rule_fn, facts, inl)
+    check_exchange_order(ck, facts)
+    norm.run_with_inlining(ck, _c18.check_global_transfer, facts, inl)
 
 
 def run(tier):
@@ -2280,10 +2468,11 @@ def run(tier):
             if tu.startswith("applications/"):
                 check_requests(ck, f3)
                 check_coherence(ck, f3)
-                check_global_matrix(ck, f3)
-                check_gate(ck, f3, partial=True)
-                check_global_vector(ck, f3)
-                check_reductions(ck, f3)
+                inl3 = norm.InlinedFacts(f3, inline_select)
+                norm.run_with_inlining(ck, check_global_matrix, f3, inl3)
+                norm.run_with_inlining(ck, check_gate, f3, inl3, partial=True)
+                norm.run_with_inlining(ck, check_global_vector, f3, inl3)
+                norm.run_with_inlining(ck, check_reductions, f3, inl3)
     ck.assume("Dist::RequestVector::wait_any returns false only when no active request is left; wait_all / Request::wait complete their requests (kernel/util/dist.hpp, MPI 3.1 §3.7.5)")
     ck.assume("LAFEM::DenseVector / MatrixMirrorBuffer keep their element arrays on the heap, so moving the containing std::vector does not move message buffers")
     ck.assume("member calls that modify their receiver are written in statement position (house style); accessor calls whose value is used are not effects")
